@@ -406,7 +406,7 @@ func (g *gen7) env() *Env7 {
 	r := g.r
 	e := &Env7{Carrier: r.pick([]string{"map", "struct", "ptrstruct"})}
 	n := 1 + r.intn(4)
-	names := []string{"x", "y", "o", "l", "m", "p", "q"}
+	names := []string{"x", "xs", "X", "o", "ob", "l", "m", "p", "q", "x_1"}
 	off := r.intn(len(names))
 	for i := 0; i < n; i++ {
 		b := &Field{Name: names[(off+i)%len(names)], V: g.value(1+r.intn(3), false)}
@@ -505,7 +505,7 @@ func genProg7(r *rng, e *Env7) string {
 // --- mutations ---------------------------------------------------------------------
 
 var mutKinds = []string{"same", "same", "contents", "extra", "numkind", "ptrflip", "carrier", "reorder", "reorder", "reorder-top",
-	"maybe-flip", "raw", "array", "hetero", "hetero", "drop", "retype-top", "retype-deep", "field-add", "field-remove", "field-rename", "nil-flip", "bad"}
+	"maybe-flip", "raw", "array", "empty", "empty-retype", "hetero", "hetero", "drop", "retype-top", "retype-deep", "field-add", "field-remove", "field-rename", "nil-flip", "bad"}
 
 // collect object nodes (with their depth) below the bindings
 func objNodes(e *Env7) []*VT {
@@ -710,6 +710,27 @@ func (g *gen7) mutate(a *Env7, kind string) *Env7 {
 				}
 			}
 			return false
+		})
+	case "empty", "empty-retype":
+		// an empty list / map keeps its static element type (conforming); with another
+		// element type it is a different type even though it holds no element
+		retype := kind == "empty-retype"
+		mutateShape(&e, r, func(v *VT) bool {
+			if v.K != "list" && v.K != "map" {
+				return false
+			}
+			v.List, v.MapK, v.MapV = nil, nil, nil
+			if retype {
+				switch v.Proto.K {
+				case "num":
+					v.Proto = &VT{K: "str", Str: "e"}
+				case "str", "bool", "time":
+					v.Proto = &VT{K: "num", NumKind: "int", Num: 1}
+				default:
+					v.Proto = &VT{K: "bool"}
+				}
+			}
+			return true
 		})
 	case "array":
 		// a top-level list bound as a Go array instead of a slice (arrays nested in
@@ -1040,8 +1061,8 @@ func runHist7(h *Hist7, x *evalCtx) hist7Result {
 }
 
 // dominant names the mutation a violation is attributed to in its signature.
-var mutPriority = []string{"rawput", "again", "bad", "hetero", "drop", "retype-top", "retype-deep", "field-add", "field-remove", "field-rename", "nil-flip",
-	"reorder", "reorder-top", "raw", "array", "carrier", "ptrflip", "numkind", "maybe-flip", "extra", "contents", "same"}
+var mutPriority = []string{"rawput", "again", "bad", "hetero", "empty-retype", "drop", "retype-top", "retype-deep", "field-add", "field-remove", "field-rename", "nil-flip",
+	"reorder", "reorder-top", "raw", "array", "empty", "carrier", "ptrflip", "numkind", "maybe-flip", "extra", "contents", "same"}
 
 func dominant(muts []string) string {
 	for _, p := range mutPriority {
